@@ -47,7 +47,34 @@ def run(ctx):
                 if seen[k] <= (3 if ring else 12) or (seen[k] + ctx.seed) % (16 if ring else 4) == 0:
                     keep.append(x)
             rows = keep
-        n, bad, r = vlib.validate_lines(ctx, "Trace_Arith", rows, timeout=3000)
+        if not ctx.quick and len(rows) > 120000:
+            # thorough: the enumeration is ~700 k edition lines; every (op, edition, n, ring) group keeps its first 80 lines and
+            # every 6th of the rest (fixed phase + seed), then the lines are judged in shards (one TLC run cannot hold them)
+            keep, seen = [], {}
+            for x in rows:
+                k = (x.get("op"), x.get("fn"), x.get("ed"), x.get("n"), x.get("ctor"), x.get("strat"), x.get("no"))
+                seen[k] = seen.get(k, 0) + 1
+                if seen[k] <= 80 or (seen[k] + ctx.seed) % 6 == 0:
+                    keep.append(x)
+            ev.cov["part1_edition_lines_recorded"] = len(rows)
+            rows = keep
+        SH = 20000
+        if len(rows) <= SH:
+            n, bad, r = vlib.validate_lines(ctx, "Trace_Arith", rows, timeout=3000)
+        else:
+            parts = [(s0, rows[s0:s0 + SH]) for s0 in range(0, len(rows), SH)]
+            res = {}
+
+            def job(s0, part):
+                def f():
+                    nn, bb, rr = vlib.validate_lines(ctx, "Trace_Arith", part, timeout=3000, workers=4)
+                    if nn < len(part):
+                        nn, bb, rr = vlib.validate_lines(ctx, "Trace_Arith", part, timeout=3000, workers=4)
+                    res[s0] = (nn, [s0 + i for i in bb])
+                return f
+            vlib.parallel([job(s0, part) for s0, part in parts], n=4)
+            n = sum(v[0] for v in res.values())
+            bad = sorted(i for v in res.values() for i in v[1])
         if n < len(rows):
             ctx.note_inconclusive("Trace_Arith evaluated %d of %d edition lines" % (n, len(rows)))
         for i in bad[:40]:
